@@ -57,6 +57,8 @@ def get_universe(tier, kind=None):
     key = ("U", tier)
     if key not in _cache:
         _cache[key] = jsonvals.universe(tier)
+    if tier == "quick" and kind == "pairs-small":
+        return jsonvals.universe_small()
     if tier == "quick" and kind == "pairs":
         key2 = ("U-pairs", tier)
         if key2 not in _cache:
